@@ -44,6 +44,8 @@ pub struct Sem {
     pub jump_crosses_call: bool,
     // A bare `{ }` block swallows break/continue/return.
     pub block_swallows_jump: bool,
+    // Functions capture a copy of their defining environment.
+    pub capture_by_value: bool,
     // `for` re-reads the container on every iteration instead of a snapshot.
     pub for_live: bool,
     // Objects iterate / print in insertion order. (Not implemented in the
@@ -51,12 +53,12 @@ pub struct Sem {
     pub continue_is_break: bool,
 }
 
-pub const VARIANTS: [&str; 17] = [
+pub const VARIANTS: [&str; 18] = [
     "dynamic_scope", "no_block_scope", "shared_iteration_frame", "assign_declares",
     "declare_assigns_outer", "assign_copies", "args_copy", "sum_reuses_left",
     "range_read_aliases", "spread_aliases", "this_sticky", "this_dropped_on_store",
     "this_dropped_on_pass", "jump_crosses_call", "block_swallows_jump", "for_live",
-    "continue_is_break",
+    "continue_is_break", "capture_by_value",
 ];
 
 impl Sem {
@@ -80,6 +82,7 @@ impl Sem {
             "block_swallows_jump" => s.block_swallows_jump = true,
             "for_live" => s.for_live = true,
             "continue_is_break" => s.continue_is_break = true,
+            "capture_by_value" => s.capture_by_value = true,
             _ => panic!("unknown variant {name}"),
         }
         s
@@ -348,9 +351,10 @@ impl Interp {
             SK::FuncDecl(name, params, collect, body) => {
                 self.label("fn_decl");
                 self.check_params(params)?;
+                let fenv = if self.sem.capture_by_value { snapshot_env(env) } else { env.clone() };
                 let f = Rc::new(FuncV{
                     name: Some(name.clone()), params: params.clone(), collect: *collect,
-                    body: body.clone(), env: env.clone(), node: s.id,
+                    body: body.clone(), env: fenv, node: s.id,
                 });
                 if name != "_" {
                     self.declare(env, name, SV::plain(Val::Func(f)), s.id, true)?;
@@ -1120,9 +1124,10 @@ impl Interp {
             },
             EK::Func(params, collect, body) => {
                 self.label("anon_fn");
+                let fenv = if self.sem.capture_by_value { snapshot_env(env) } else { env.clone() };
                 let f = Rc::new(FuncV{
                     name: None, params: params.clone(), collect: *collect, body: body.clone(),
-                    env: env.clone(), node: e.id,
+                    env: fenv, node: e.id,
                 });
                 Ok(SV::plain(Val::Func(f)))
             },
@@ -1362,6 +1367,15 @@ impl Interp {
         }
         Ok(Ok(()))
     }
+}
+
+pub fn snapshot_env(env: &Env) -> Env {
+    let parent = env.parent.as_ref().map(snapshot_env);
+    let f = new_frame(parent);
+    for (k, b) in env.vars.borrow().iter() {
+        f.vars.borrow_mut().insert(k.clone(), Binding{v: b.v.clone(), decl: b.decl, decl_is_op: b.decl_is_op});
+    }
+    f
 }
 
 pub fn shallow_copy(v: &Val) -> Val {
